@@ -2,7 +2,7 @@
 //! generators, the reference models and the replay files; converted to zerv's own types
 //! only to feed zerv.
 use serde::{Deserialize, Serialize};
-use zerv::version::zerv::{Component, PreReleaseLabel, PreReleaseVar, Var, ZervSchema, ZervVars};
+use zerv::version::zerv::{Component, Precedence, PrecedenceOrder, PreReleaseLabel, PreReleaseVar, Var, ZervSchema, ZervVars};
 use zerv::version::Zerv;
 
 #[derive(Debug, Clone, Hash, PartialEq, Eq, Serialize, Deserialize)]
@@ -110,6 +110,40 @@ pub struct MSchema {
     pub core: Vec<MComp>,
     pub extra_core: Vec<MComp>,
     pub build: Vec<MComp>,
+    /// custom `precedence_order` as indices into PRECEDENCE_NAMES; empty = the default order
+    #[serde(default)]
+    pub precedence: Vec<u8>,
+}
+pub const PRECEDENCE_NAMES: [&str; 11] = ["Epoch", "Major", "Minor", "Patch", "Core", "PreReleaseLabel", "PreReleaseNum", "Post", "Dev", "ExtraCore", "Build"];
+fn precedence_of(i: u8) -> Precedence {
+    match i % 11 {
+        0 => Precedence::Epoch,
+        1 => Precedence::Major,
+        2 => Precedence::Minor,
+        3 => Precedence::Patch,
+        4 => Precedence::Core,
+        5 => Precedence::PreReleaseLabel,
+        6 => Precedence::PreReleaseNum,
+        7 => Precedence::Post,
+        8 => Precedence::Dev,
+        9 => Precedence::ExtraCore,
+        _ => Precedence::Build,
+    }
+}
+fn precedence_index(p: &Precedence) -> u8 {
+    match p {
+        Precedence::Epoch => 0,
+        Precedence::Major => 1,
+        Precedence::Minor => 2,
+        Precedence::Patch => 3,
+        Precedence::Core => 4,
+        Precedence::PreReleaseLabel => 5,
+        Precedence::PreReleaseNum => 6,
+        Precedence::Post => 7,
+        Precedence::Dev => 8,
+        Precedence::ExtraCore => 9,
+        Precedence::Build => 10,
+    }
 }
 impl MSchema {
     pub fn to_zerv(&self) -> Result<ZervSchema, String> {
@@ -117,7 +151,7 @@ impl MSchema {
             self.core.iter().map(|c| c.to_zerv()).collect(),
             self.extra_core.iter().map(|c| c.to_zerv()).collect(),
             self.build.iter().map(|c| c.to_zerv()).collect(),
-            Default::default(),
+            if self.precedence.is_empty() { PrecedenceOrder::default() } else { PrecedenceOrder::from_precedences(self.precedence.iter().map(|i| precedence_of(*i)).collect()) },
         )
         .map_err(|e| e.to_string())
     }
@@ -126,6 +160,10 @@ impl MSchema {
             core: s.core().iter().map(MComp::from_zerv).collect(),
             extra_core: s.extra_core().iter().map(MComp::from_zerv).collect(),
             build: s.build().iter().map(MComp::from_zerv).collect(),
+            precedence: {
+                let v: Vec<u8> = s.precedence_order().iter().map(precedence_index).collect();
+                if v == (0u8..11).collect::<Vec<_>>() { vec![] } else { v }
+            },
         }
     }
     /// RON text of the schema as a user would write it for --schema-ron
@@ -155,7 +193,12 @@ impl MSchema {
             }
         }
         let sec = |v: &Vec<MComp>| v.iter().map(comp).collect::<Vec<_>>().join(", ");
-        format!("(core: [{}], extra_core: [{}], build: [{}])", sec(&self.core), sec(&self.extra_core), sec(&self.build))
+        let prec = if self.precedence.is_empty() {
+            String::new()
+        } else {
+            format!(", precedence_order: [{}]", self.precedence.iter().map(|i| PRECEDENCE_NAMES[*i as usize % 11]).collect::<Vec<_>>().join(", "))
+        };
+        format!("(core: [{}], extra_core: [{}], build: [{}]{prec})", sec(&self.core), sec(&self.extra_core), sec(&self.build))
     }
     pub fn all(&self) -> impl Iterator<Item = &MComp> {
         self.core.iter().chain(self.extra_core.iter()).chain(self.build.iter())
